@@ -743,25 +743,18 @@ def noBmp (c : Case) : Bool := c.threads.all fun t => t.2.all fun o => match o w
 /-- every subscription record of a thread without `bmp` operations is a channel subscription -/
 def NoBmpRecs (st : St) : Prop := ∀ i, ∀ r ∈ (st.threads i).mysubs, r.kind = 0
 
-/-- The master theorem: for every well-formed case without operations of the purge class and
-    without BMP connections — any number of shards, writer sessions and subscribers, any
-    schedule — the reference checker written from the property text accepts the observation of
-    the model's run. -/
-theorem check_run_ok (c : Case) (hc : caseOk c = true) (hnb : NoBmpRecs (run c)) :
-    Spec.check c (observe c (run c)) = .ok := by
+/-- one channel subscription of the finished run passes the checker -/
+theorem checkSub_chan (c : Case) (hc : caseOk c = true) (i nth : Nat) (r : SubRec)
+    (hr' : r ∈ ((run c).threads i).mysubs) (hb : r.kind = 0) :
+    Spec.checkSub c (keyUniverse c) ((keyUniverse c).map fun key => (preOf (run c) key, postOf (run c) key))
+      ((keyUniverse c).map fun key => match (run c).rib key with
+        | some e => isStale (run c) key.peer e
+        | none => false)
+      (subObs (run c) (keyUniverse c) i nth r) = none := by
   have hr := run_reach c
   have hI := reach_inv hc hr
   have hfin := run_finished c hc
   have hq := finished_quiescent hI hfin
-  unfold Spec.check
-  simp only [observe, hfin, Bool.not_true, Bool.false_eq_true, if_false, bne_self_eq_false]
-  apply checkSubs_ok
-  intro so hso
-  simp only [List.mem_flatMap, List.mem_range, List.mem_map] at hso
-  obtain ⟨i, _, ⟨p, hp, rfl⟩⟩ := hso
-  obtain ⟨nth, r⟩ := p
-  have hr' : r ∈ ((run c).threads i).mysubs := mem_enumFrom' _ _ _ hp
-  have hb : r.kind = 0 := hnb i r hr'
   unfold Spec.checkSub
   simp only [subObs, hb]
   simp only [show ((0 : Nat) == 1) = false from rfl, show ((0 : Nat) == 2) = false from rfl,
@@ -829,6 +822,21 @@ theorem check_run_ok (c : Case) (hc : caseOk c = true) (hnb : NoBmpRecs (run c))
         · rfl
       simp only [e1, e2]
   · simp only [hlive, decide_false, Bool.not_false, if_true]
+
+/-- The master theorem for cases whose subscriptions are all channel subscriptions — any number of
+    shards, writer sessions and subscribers, any operations, any schedule. -/
+theorem check_run_ok (c : Case) (hc : caseOk c = true) (hnb : NoBmpRecs (run c)) :
+    Spec.check c (observe c (run c)) = .ok := by
+  have hfin := run_finished c hc
+  unfold Spec.check
+  simp only [observe, hfin, Bool.not_true, Bool.false_eq_true, if_false, bne_self_eq_false]
+  apply checkSubs_ok
+  intro so hso
+  simp only [List.mem_flatMap, List.mem_range, List.mem_map] at hso
+  obtain ⟨i, _, ⟨p, hp, rfl⟩⟩ := hso
+  obtain ⟨nth, r⟩ := p
+  have hr' : r ∈ ((run c).threads i).mysubs := mem_enumFrom' _ _ _ hp
+  exact checkSub_chan c hc i nth r hr' (hnb i r hr')
 
 /-! ## The consumer's snapshot maps (bmp.rs `apply_snapshot`) -/
 
